@@ -9,7 +9,7 @@ from ..core import Case, Prop
 import zlib
 
 from ..scautil import (LATTICE, approx_equal, arr, brackets_of, eps_eff, exact, fmt_scale, fmt_vals, fr,
-                       half_even, is_tie, mk, parse_rd, parse_scale, parse_vals, show_brackets, snap,
+                       half_even, is_tie, mk, parse_rd, parse_scale, parse_vals, show_brackets, snap, snapshot,
                        spec_build, spec_la, spec_ma, spec_mr, spec_mr_rounded, spec_sa, split_bases)
 
 Q = F(1, 4)
@@ -20,19 +20,74 @@ APPROX_OPS = {"lacalc", "lacalcR"}          # one true division: compared with t
 # implementation adapter
 
 
-def _vec_and_single(fn, n, canon):
+def _vec_and_single(fn, n, canon, scale=None, mkarr=None):
     """value on the whole vector (`fn(list of positions)`), and flag when a base alone gives
-    another (canonical) value"""
-    out = [canon(v) for v in fn(list(range(n)))]
+    another (canonical) value.  With `scale` and `mkarr` (positions -> the argument array; `fn`
+    then takes that array): the same call is made a second time after the first result has been
+    overwritten (`!AGAIN` when the values differ: a result that is a view of internal state, a memo),
+    the argument array must come back unchanged and must not share memory with the result (`!ARG`),
+    and the brackets of the scale must not move (`!MUT`)."""
+    import numpy
+    if mkarr is None:
+        out = [canon(v) for v in fn(list(range(n)))]
+        call = fn
+    else:
+        before = snapshot(scale)
+        a = mkarr(list(range(n)))
+        a0 = a.copy()
+        res = fn(a)
+        out = [canon(v) for v in res]
+        flags = ""
+        if a.dtype != a0.dtype or not numpy.array_equal(a, a0) or (isinstance(res, numpy.ndarray) and numpy.shares_memory(res, a)):
+            flags += " !ARG"
+        if isinstance(res, numpy.ndarray) and res.size and res.flags.writeable:
+            res[...] = 12345
+        if [canon(v) for v in fn(a)] != out:
+            flags += " !AGAIN"
+        if snapshot(scale) != before:
+            flags += " !MUT"
+        if flags:
+            return out, flags
+        call = lambda ix: fn(mkarr(ix))
     flags = ""
     if len(out) != n:
         return out, " !LEN"
     for j in range(n):
-        one = fn([j])
+        one = call([j])
         if len(one) != 1 or canon(one[0]) != out[j]:
             flags = " !VEC"
             break
     return out, flags
+
+
+def _disturb(s, line: str):
+    """on a quarter of the lines the scale is copied first and the COPY is changed in place through the whole
+    API: the scale itself must still compute the brackets it was built from.  On another quarter the
+    symmetric direction: the scale that is evaluated is a copy (`copy()`, or for a marginal-rate scale
+    `scale_tax_scales(1)` / `multiply_rates(1, inplace=False)` / `multiply_thresholds(1, inplace=False)`) and its
+    ORIGINAL is changed in place afterwards.  Returns the scale to evaluate."""
+    h = zlib.crc32(line.encode())
+    if h % 4 not in (1, 3):
+        return s
+
+    def change(c):
+        if c.thresholds:
+            c.add_bracket(c.thresholds[0], 1.0)          # an existing threshold: rates[0] += 1
+        c.add_bracket(98765.0, 0.5)                      # a new one: both lists grow
+        if hasattr(c, "multiply_rates"):
+            c.multiply_rates(2.0)
+            c.multiply_thresholds(3.0)
+    if h % 4 == 1:
+        how = (h // 4) % 4 if hasattr(s, "scale_tax_scales") else 0
+        c = (s.copy() if how == 0 else s.scale_tax_scales(1.0) if how == 1 else s.multiply_rates(1.0, inplace=False) if how == 2
+             else s.multiply_thresholds(1.0, inplace=False))
+        change(c)
+        return s
+    how = (h // 4) % 4 if hasattr(s, "scale_tax_scales") else 0
+    c = (s.copy() if how == 0 else s.scale_tax_scales(1.0) if how == 1 else s.multiply_rates(1.0, inplace=False) if how == 2
+         else s.multiply_thresholds(1.0, inplace=False))
+    change(s)
+    return c
 
 
 def _positional(line: str) -> bool:
@@ -57,46 +112,68 @@ def impl(case: Case) -> str:
         vec = op.endswith("v")
         facs = [float(x) for x in parse_vals(f[3])]
         rd, ins = parse_rd(f[4]), parse_scale(f[5])
-        ints, bases = split_bases(f[6])
+        kind, bases = split_bases(f[6])
         n = len(bases)
 
-        def fa(ix):                    # the factor argument for the positions ix
-            return numpy.array([facs[k] for k in ix]) if vec else facs[0]
-
         def ba(ix):
-            return arr([bases[k] for k in ix], ints)
+            return arr([bases[k] for k in ix], kind)
         allix = list(range(n))
         try:
             s = mk("mr", ins)
+            s = _disturb(s, case.line)
+            before = snapshot(s)
             if op.startswith("mrcalc"):
                 den = LATTICE if rd is None else 10 ** rd
-                call = ((lambda ix: s.calc(ba(ix), fa(ix), rd)) if pos else
-                        (lambda ix: s.calc(ba(ix), factor=fa(ix), round_base_decimals=rd)))
-                if rd is None and not vec and facs[0] == 1.0 and pos:
-                    call = lambda ix: s.calc(ba(ix))                      # all defaults
-                vals, flags = _vec_and_single(call, n, lambda v: snap(v, den))
+                if vec:
+                    # an array of factors: built per call for the positions asked
+                    def fa(ix):
+                        return numpy.array([facs[k] for k in ix])
+                    call = ((lambda ix: s.calc(ba(ix), fa(ix), rd)) if pos else
+                            (lambda ix: s.calc(ba(ix), factor=fa(ix), round_base_decimals=rd)))
+                    vals, flags = _vec_and_single(call, n, lambda v: snap(v, den))
+                    if snapshot(s) != before:
+                        flags += " !MUT"
+                    return fmt_vals(vals) + flags
+                call = ((lambda a: s.calc(a, facs[0], rd)) if pos else
+                        (lambda a: s.calc(a, factor=facs[0], round_base_decimals=rd)))
+                if rd is None and facs[0] == 1.0 and pos:
+                    call = lambda a: s.calc(a)                      # all defaults
+                vals, flags = _vec_and_single(call, n, lambda v: snap(v, den), s, ba)
                 return fmt_vals(vals) + flags
-            idx = (s.bracket_indices(ba(allix), fa(allix), rd) if pos else
-                   s.bracket_indices(ba(allix), factor=fa(allix), round_decimals=rd))
+            fa_all = numpy.array(facs) if vec else facs[0]
+            idx = (s.bracket_indices(ba(allix), fa_all, rd) if pos else
+                   s.bracket_indices(ba(allix), factor=fa_all, round_decimals=rd))
             if op.startswith("mridx"):
-                return ",".join(str(int(k)) for k in idx) if len(idx) else "-"
-            out = (s.marginal_rates(ba(allix), fa(allix), rd) if pos else
-                   s.marginal_rates(ba(allix), factor=fa(allix), round_base_decimals=rd))
+                again = (s.bracket_indices(ba(allix), fa_all, rd) if pos else
+                         s.bracket_indices(ba(allix), factor=fa_all, round_decimals=rd))
+                flags = "" if list(again) == list(idx) and snapshot(s) == before else " !AGAIN"
+                return (",".join(str(int(k)) for k in idx) if len(idx) else "-") + flags
+            out = (s.marginal_rates(ba(allix), fa_all, rd) if pos else
+                   s.marginal_rates(ba(allix), factor=fa_all, round_base_decimals=rd))
             # same arguments to bracket_indices: at or above the first threshold (index >= 0)
             # the reported rate must be the rate of the reported bracket
             flags = ""
             if len(idx) != len(out) or any(int(k) >= 0 and exact(s.rates[int(k)]) != exact(v) for k, v in zip(idx, out)):
                 flags = " !IDX"
-            return fmt_vals(exact(v) for v in out) + flags
+            res = fmt_vals(exact(v) for v in out)
+            # the returned array is the caller's: overwriting it must not reach the scale
+            out[...] = 54321.0
+            if snapshot(s) != before:
+                flags += " !MUT"
+            return res + flags
         except Exception:
             return "ERR"
     if op in ("thr", "ratefb"):
         ins = parse_scale(f[3])
-        ints, bases = split_bases(f[4])
+        kind, bases = split_bases(f[4])
         try:
             s = mk("mr" if pos or op == "ratefb" else "la", ins)       # threshold_from_tax_base is shared by both rate scales
-            out = s.threshold_from_tax_base(arr(bases, ints)) if op == "thr" else s.rate_from_tax_base(arr(bases, ints))
-            return fmt_vals(exact(v) for v in out)
+            s = _disturb(s, case.line)
+            before = snapshot(s)
+            out = s.threshold_from_tax_base(arr(bases, kind)) if op == "thr" else s.rate_from_tax_base(arr(bases, kind))
+            res = fmt_vals(exact(v) for v in out)
+            out[...] = 54321.0
+            return res + ("" if snapshot(s) == before else " !MUT")
         except Exception:
             return "ERR"
     if op == "ratefi":
@@ -110,40 +187,83 @@ def impl(case: Case) -> str:
             return "ERR"
     if op in ("macalc", "lacalc", "macalcR", "lacalcR"):
         ins = parse_scale(f[2])
-        ints, bases = split_bases(f[3])
+        kind, bases = split_bases(f[3])
         try:
             s = mk("ma" if op.startswith("ma") else "la", ins)
+            s = _disturb(s, case.line)
             if op.endswith("R"):
-                call = (lambda ix: s.calc(arr([bases[k] for k in ix], ints), True)) if pos else \
-                       (lambda ix: s.calc(arr([bases[k] for k in ix], ints), right=True))
+                call = (lambda a: s.calc(a, True)) if pos else (lambda a: s.calc(a, right=True))
             else:
-                call = lambda ix: s.calc(arr([bases[k] for k in ix], ints))
-            vals, flags = _vec_and_single(call, len(bases), exact if op.startswith("ma") else snap_la)
+                call = lambda a: s.calc(a)
+            vals, flags = _vec_and_single(call, len(bases), exact if op.startswith("ma") else snap_la, s,
+                                          lambda ix: arr([bases[k] for k in ix], kind))
             return fmt_vals(vals) + flags
         except Exception:
             return "ERR"
-    if op == "sacalc":
+    if op in ("sacalc", "sacalcx"):
         right, ins = f[2] == "R", parse_scale(f[3])
-        ints, bases = split_bases(f[4])
+        if op == "sacalcx":                                   # bases may be +-inf
+            kind, bases = "", [float(t) if t in ("inf", "-inf") else F(t) for t in f[4].split(",")]
+        else:
+            kind, bases = split_bases(f[4])
         try:
             s = mk("sa", ins)
+            s = _disturb(s, case.line)
             if pos:
-                call = lambda ix: s.calc(arr([bases[k] for k in ix], ints), right)
+                call = lambda a: s.calc(a, right)
             elif right:
-                call = lambda ix: s.calc(arr([bases[k] for k in ix], ints), right=True)
+                call = lambda a: s.calc(a, right=True)
             else:
-                call = lambda ix: s.calc(arr([bases[k] for k in ix], ints))        # default right=False
-            vals, flags = _vec_and_single(call, len(bases), exact)
+                call = lambda a: s.calc(a)        # default right=False
+            vals, flags = _vec_and_single(call, len(bases), exact, s, lambda ix: arr([bases[k] for k in ix], kind))
             # this scale also accepts a scalar, a 0-d array and a 2-d array: same values
-            if bases and not flags:
-                b0 = int(bases[0]) if ints else float(bases[0])
+            if bases and not flags and op == "sacalc":
+                b0 = int(bases[0]) if kind == "i" else float(bases[0])
                 if exact(s.calc(b0, right=right)) != vals[0] or exact(s.calc(numpy.array(b0), right=right)) != vals[0]:
                     flags = " !VEC"
                 if len(bases) % 2 == 0:
-                    two = s.calc(arr(bases, ints).reshape(2, -1), right=right)
+                    two = s.calc(arr(bases, kind).reshape(2, -1), right=right)
                     if two.shape != (2, len(bases) // 2) or [exact(v) for v in two.reshape(-1)] != vals:
                         flags = " !VEC"
             return fmt_vals(vals) + flags
+        except Exception:
+            return "ERR"
+    if op == "todict":
+        kind, k, dec, ins = f[2], F(f[3]), parse_rd(f[4]), parse_scale(f[5])
+        try:
+            s = mk(kind, ins)
+            s = _disturb(s, case.line)
+            if kind in ("mr", "la") and ((k, dec) != (F(1), None) or pos):
+                s = s.multiply_thresholds(float(k), dec) if pos else s.multiply_thresholds(float(k), decimals=dec, inplace=False)
+            d = s.to_dict()
+            if not isinstance(d, dict) or any(not isinstance(key, str) for key in d):
+                return "ERR"
+            return show_brackets([(exact(float(key)), exact(v)) for key, v in d.items()])
+        except Exception:
+            return "ERR"
+    if op in ("apth", "switch", "avgrate", "margrate"):
+        from openfisca_core import commons
+        try:
+            if op == "apth":
+                ths, cs = [float(x) for x in parse_vals(f[2])], [float(x) for x in parse_vals(f[3])]
+                kind, xs = split_bases(f[4])
+                out = commons.apply_thresholds(arr(xs, kind), ths if pos else numpy.array(ths), cs if pos else numpy.array(cs))
+                return fmt_vals(exact(v) for v in out)
+            if op == "switch":
+                table = {(int(k) if pos and k.denominator == 1 else float(k)): float(v) for k, v in parse_scale(f[2])}
+                kind, cs = split_bases(f[3])
+                out = commons.switch(arr(cs, kind), table)
+                return fmt_vals(exact(v) for v in out)
+            trim = None if f[2] == "-" else [float(F(x)) for x in f[2].split(":")]
+            ts, vs = arr(parse_vals(f[3])), [float(x) for x in parse_vals(f[4])]
+            fn = commons.average_rate if op == "avgrate" else commons.marginal_rate
+            vs = vs if pos else numpy.array(vs)                # a list is converted to float32 by the function
+            t0 = ts.copy()
+            out = fn(ts, vs, trim) if pos else fn(ts, vs, trim=trim) if trim is not None else fn(ts, vs)
+            flags = "" if numpy.array_equal(ts, t0) else " !ARG"
+            if any(numpy.isinf(v) for v in out):
+                return "ERR"
+            return (",".join("nan" if numpy.isnan(v) else fr(exact(v)) for v in out) if len(out) else "-") + flags
         except Exception:
             return "ERR"
     raise ValueError("unknown op " + op)
@@ -159,7 +279,11 @@ def snap_la(v) -> F:
 def canon_equal(case: Case, a: str, b: str) -> bool:
     if a == b:
         return True
-    if case.line.split()[1] in APPROX_OPS:
+    f = case.line.split()
+    if f[1] in APPROX_OPS:
+        return approx_equal(a, b)
+    if f[1] == "todict" and f[4] not in ("-", "0"):
+        # thresholds rounded to 1 or 2 decimals: n / 10^d is not a binary fraction, the key is the nearest float
         return approx_equal(a, b)
     return False
 
@@ -225,6 +349,9 @@ def oracle(case: Case, out: str):
     body, flags = _flags(out)
     if "VEC" in flags or "LEN" in flags:
         return ("vector-pointwise", f"{op}: a base evaluated alone differs from its value inside the vector ({case.line[:160]})")
+    if "ARG" in flags or "AGAIN" in flags or "MUT" in flags:
+        return ("calc-side-effect", f"{op}: the call altered its argument or the scale's brackets, or the same call answered differently "
+                                    f"the second time ({', '.join(flags)}): {case.line[:160]}")
     if "KIND" in flags:
         return ("insertion-order", "rate-like and amount-like add_bracket disagree on " + f[2])
     if "IDX" in flags:
@@ -308,7 +435,9 @@ def nontrivial(case: Case, out: str) -> bool:
     f = case.line.split()
     if out.startswith("ERR"):
         return False
-    ins = f[-1] if f[1] == "build" else f[-2]
+    if f[1] in NO_SCALE_OPS:
+        return out.count(",") >= 1
+    ins = f[-1] if f[1] in ("build", "todict") else f[-2]
     return len(spec_build(parse_scale(ins))) >= 2
 
 
@@ -317,6 +446,7 @@ def nontrivial(case: Case, out: str) -> bool:
 
 
 SILENT = "oracle-silent"
+NO_SCALE_OPS = ("apth", "switch", "avgrate", "margrate")     # commons.formulas / commons.rates: no scale on the line
 
 
 def _mk(op, *fields, claimed=True, tags=(), binding=True):
@@ -375,8 +505,10 @@ def _split_index_bases(ths, bases):
     """(claimed, unclaimed) bases for bracket index / marginal rate (Appendix A)"""
     if not ths:
         return [], bases
-    inn = [b for b in bases if b > ths[0] or (b == ths[0] and ths[0] <= 0)]
-    out = [b for b in bases if b not in inn]
+    t0 = ths[0]
+    inn, out = [], []
+    for b in bases:
+        (inn if b > t0 or (b == t0 and t0 <= 0) else out).append(b)
     return inn, out
 
 
@@ -467,6 +599,9 @@ def variant_cases(rng, s, brs):
         menu.append(("lacalc", (s, "i:" + fmt_vals(la_in))))
     for opn, fields in rng.sample(menu, 3):
         out.append(_mk(opn, *fields, tags=("int-array",)))
+    # the same integer-valued bases as a float32 array (exact there: < 2^24 with the rates' four binary digits)
+    opn, fields = rng.choice(menu)
+    out.append(_mk(opn, *fields[:-1], "f:" + fields[-1][2:], tags=("float32-array",)))
     # integer arrays with a fractional factor: integer bases in the gaps between t*floor(f), t*f, t*ceil(f)
     fi = F(rng.choice([4, 12, 22, 10, 9, 5, 21, 3, 20, 13]), 8)
     fl, ce = fi.numerator // fi.denominator, -((-fi.numerator) // fi.denominator)
@@ -554,8 +689,9 @@ def _round_lines(ops, rf, d, s, ths, bases):
     out = []
     e = fr(eps_eff(rf))
     lo, hi = _rounded([rf * t for t in ths], d)
-    inn = [b for b in bases if b > hi[0] or (b == hi[0] and lo[0] == hi[0])]
-    outb = [b for b in bases if b not in inn]
+    inn, outb = [], []
+    for b in bases:
+        (inn if b > hi[0] or (b == hi[0] and lo[0] == hi[0]) else outb).append(b)
     for opn in ops:
         if opn == "mrcalc":
             out.append(_mk(opn, e, fr(rf), d, s, fmt_vals(bases), tags=("round", f"d{d}")))
@@ -564,6 +700,68 @@ def _round_lines(ops, rf, d, s, ths, bases):
             out.append(_mk(opn, e, fr(rf), d, s, fmt_vals(inn), tags=("round", f"d{d}")))
         if outb:
             out.append(_mk(opn, e, fr(rf), d, s, fmt_vals(outb), claimed=False, tags=("round", "below-first")))
+    return out
+
+
+def extra_cases(rng, ins):
+    """observation points beside calc: to_dict (also after a rounding multiply_thresholds, where thresholds
+    collapse), the single-amount scale at +-inf (its guard amounts)"""
+    out = []
+    s = fmt_scale(ins)
+    brs = spec_build(ins)
+    kind = rng.choice(["mr", "la", "ma", "sa"])
+    out.append(_mk("todict", kind, 1, "-", s, claimed=False, tags=(kind,)))
+    if all(t >= 0 for t, _ in brs):               # (a negative threshold rounded to -0.0 prints as another key than 0.0)
+        k = F(rng.choice(OFF_LATTICE_FACTORS + [1, 1, 2]), rng.choice([8, 8, 64, 1024]))
+        out.append(_mk("todict", rng.choice(["mr", "la"]), fr(k), rng.choice(["-", 0, 0, 1, 2]), s, claimed=False, tags=("scaled",)))
+    ths = [t for t, _ in brs]
+    xb = ["inf", "-inf"] + [fr(b) for b in rng.sample(bases_for(rng, brs, extra=0), 3)]
+    rng.shuffle(xb)
+    out.append(_mk("sacalcx", rng.choice("LR"), s, ",".join(xb), claimed=False, tags=("inf",)))
+    return out
+
+
+def commons_cases(rng, ins):
+    """commons.apply_thresholds / switch / average_rate / marginal_rate, the small pure functions formulas use
+    with scales: thresholds of the scale as the thresholds, its rates as the choices; net incomes of the scale
+    as the targets (steps of the varying income are powers of two: the quotients stay dyadic)"""
+    out = []
+    brs = spec_build(ins)
+    ths = [t for t, _ in brs]
+    rs = [r for _, r in brs]
+    xs = bases_for(rng, brs, extra=2)
+    shape = rng.choice(["same", "one-more", "one-more", "bad"])
+    cs = {"same": rs, "one-more": rs + [F(rng.randint(-8, 24), 4)], "bad": rs[:-1] if rng.random() < 0.5 else rs + [F(1), F(2)]}[shape]
+    pre = rng.choice(["", "", "i:"])
+    if pre:
+        xs = sorted({F(x.numerator // x.denominator) for x in xs})
+    out.append(_mk("apth", fmt_vals(ths), fmt_vals(cs), pre + fmt_vals(xs), claimed=False, tags=(shape,)))
+    # switch: the keys are distinct (a dict), conditions hit and miss them
+    keys = rng.sample(range(-3, 12), rng.randint(1, 5))
+    table = [(F(k), F(rng.randint(-20, 80), 4)) for k in keys]
+    conds = [F(rng.choice(keys + [rng.randint(-4, 13)])) for _ in range(rng.randint(1, 8))]
+    out.append(_mk("switch", fmt_scale(table), rng.choice(["", "i:"]) + fmt_vals(conds), claimed=False))
+    if rng.random() < 0.1:
+        out.append(_mk("switch", "-", "1,2", claimed=False, tags=("empty-table",)))
+    # rates: gross incomes with power-of-two steps, net = gross - tax (non-negative thresholds: exact tax)
+    n = rng.randint(2, 7)
+    g = F(rng.randint(1, 64))
+    gross = [g]
+    for _ in range(n - 1):
+        gross.append(gross[-1] + rng.choice([-1, 1, 1, 1]) * F(2) ** rng.randint(-1, 6))
+    if rng.random() < 0.7:
+        net = [x - spec_mr(brs, x) for x in gross]
+    else:
+        net = [F(rng.randint(-64, 640), 4) for _ in gross]
+    trim = "-"
+    if rng.random() < 0.5:
+        a, b = F(rng.randint(-4, 12), 8), F(rng.randint(-4, 20), 8)
+        trim = f"{fr(a)}:{fr(b)}"
+    out.append(_mk("margrate", trim, fmt_vals(net), fmt_vals(gross), claimed=False))
+    # average rate: varying = a power of two (or any non-zero value dividing exactly)
+    var = [rng.choice([-1, 1, 1]) * F(2) ** rng.randint(-1, 7) for _ in range(n)]
+    tgt = [v * F(rng.randint(-32, 48), 16) for v in var]
+    out.append(_mk("avgrate", trim, fmt_vals(tgt), fmt_vals(var), claimed=False))
     return out
 
 
@@ -594,6 +792,16 @@ def degenerate_cases():
     out.append(_mk("macalc", "-", "0,5,-5", claimed=False, tags=("empty-scale",)))
     out.append(_mk("sacalc", "L", "-", "0,5,-5", claimed=False, tags=("empty-scale",)))
     out.append(_mk("lacalc", "-", "0,5", claimed=False, tags=("empty-scale",)))
+    # a vector of no bases: an empty result (bracket_indices refuses it, above)
+    for sc in ("0:1/4,10:1/2", "7:1/8"):
+        out.append(_mk("mrcalc", 0, 1, "-", sc, "-", tags=("empty-base",)))
+        out.append(_mk("mrcalc", e, "3/2", 0, sc, "-", tags=("empty-base",)))
+        out.append(_mk("macalc", sc, "-", tags=("empty-base",)))
+        out.append(_mk("sacalc", "L", sc, "-", tags=("empty-base",)))
+        out.append(_mk("sacalc", "R", sc, "-", tags=("empty-base",)))
+        out.append(_mk("lacalc", sc, "-", claimed=False, tags=("empty-base",)))
+        out.append(_mk("mrrate", e, 1, "-", sc, "-", claimed=False, tags=("empty-base",)))
+        out.append(_mk("thr", e, sc, "-", claimed=False, tags=("empty-base",)))
     # negative / zero threshold factor: answered, not binding
     out.append(_mk("mrcalc", 0, "-1", "-", "0:1/4,10:1/2", "-20,-5,0,5,20", claimed=False, tags=("neg-factor",)))
     out.append(_mk("mrcalc", 0, "-1/2", "-", "-10:1/4,0:1/8,10:1/2", "-20,-5,0,5,20", claimed=False, tags=("neg-factor",)))
@@ -606,7 +814,12 @@ def generate(rng: random.Random, tier: str):
     n_perm = 120 if tier == "quick" else 3000
     out = degenerate_cases()
     for i in range(n_scales):
-        out += cases_for_scale(rng, rand_ins(rng))
+        ins = rand_ins(rng)
+        out += cases_for_scale(rng, ins)
+        if i % 4 == 0:
+            out += extra_cases(rng, ins)
+        if i % 8 == 0:
+            out += commons_cases(rng, ins)
     for _ in range(n_perm):
         ins = rand_ins(rng, nmax=5)
         out += perm_cases(ins)
@@ -645,6 +858,8 @@ def enumerate_thorough():
                 if len(brs) >= 2:
                     la_in = [b for b in bases if t0 <= b < brs[-1][0]]
                     out.append(_mk("lacalc", s, fmt_vals(la_in), tags=("enum",)))
+                out.append(_mk("todict", ["mr", "la", "ma", "sa"][len(out) % 4], 1, "-", s, claimed=False, tags=("enum",)))
+                out.append(_mk("sacalcx", "LR"[len(out) % 2], s, "-inf,-2,0,1/2,3,inf", claimed=False, tags=("enum",)))
     return out
 
 
@@ -675,6 +890,8 @@ def corpus():
 def neighbours(case: Case):
     f = case.line.split()
     op = f[1]
+    if op in NO_SCALE_OPS or op == "todict":
+        return []
     ins = parse_scale(f[-1] if op == "build" else f[-2])
     rng = random.Random(1)
     out = []
@@ -702,7 +919,14 @@ PROP = Prop(
           "an array of factors, one per base: mrcalcv / mridxv / mrratev), integer arrays (int32 / int64) for every op, optional arguments "
           "spelled positionally on half of the lines and by keyword on the other half, rate_from_bracket_indice on given indices, thr, "
           "ratefb, macalc, sacalc L/R, lacalc; every insertion order of scales with <= 5 brackets. Each calc is evaluated "
-          "on the vector and on every base alone. A case is non-trivial when the scale has at least two distinct thresholds."),
+          "on the vector and on every base alone; the vector call is made twice (the first result overwritten in between), its "
+          "argument array must come back unchanged and unshared, the scale's brackets must not move; bases also as float32 arrays "
+          "and as empty vectors. On a quarter of the lines the scale is first copied (copy / scale_tax_scales / multiply_*(inplace=False)) "
+          "and the COPY is changed in place through the whole API, on another quarter the evaluated scale is such a copy whose ORIGINAL is "
+          "changed afterwards. Round 2 observation points (oracle silent, correspondence binding): to_dict of the four scale kinds (also after "
+          "a rounding multiply_thresholds, where thresholds collapse), the single-amount scale at +-inf (its guard amounts), and "
+          "commons.apply_thresholds / switch / average_rate / marginal_rate (thresholds and rates of the scale as thresholds and choices, net "
+          "incomes of the scale as targets, trims). A case is non-trivial when the scale has at least two distinct thresholds."),
     assumptions=[
         "IEEE rounding is modelled, not verified: inputs are on a dyadic lattice where the code's float arithmetic is exact; the "
         "(factor + eps) perturbation of MarginalRateTaxScale.calc is a parameter eps >= 0 of the model and the implementation's value "
@@ -723,6 +947,16 @@ PROP = Prop(
                 "is the one reported with its rate (C08_bracket_reported), the reported rate is the slope of calc (C08_marginal_slope); "
                 "marginal-amount, single-amount (left/right, below first) and linear-average definitions; add_bracket is order independent "
                 "and yields the sorted scale with summed rates (C08_insertion_order, C08_built_sorted, C08_build_def); vector = pointwise. "
+                "Round 2: calc is monotone in the base for rates >= 0 (C08_calc_monotone) and Lipschitz, hence continuous at thresholds "
+                "(C08_calc_lipschitz); the bracket index is monotone in the base (C08_bracket_index_monotone); calc is affine with the bracket's rate "
+                "between the bracket's two perturbed thresholds, ends included (C08_marginal_rate_derivative), and commons.marginal_rate of the "
+                "scale's net incomes returns that rate (C08_finite_difference_rate), commons.average_rate of a linear-average scale's net income "
+                "the interpolated rate (C08_average_rate_linear); SingleAmountTaxScale.calc as written, with guard bins and guard amounts, is the "
+                "definition on every finite base (C08_single_amount_guards); to_dict of a built scale lists its brackets (C08_to_dict); "
+                "apply_thresholds returns the choice of the first threshold not exceeded, the extra choice or 0 above all (C08_apply_thresholds*), "
+                "switch the value of the matching key (C08_switch); marginal_rates / threshold_from_tax_base on a vector are the single-base "
+                "computations and report the threshold and rate of the containing bracket (C08_vector_rates, C08_threshold_rate_from_tax_base); the conventions outside the claim domain as the code has them: index -1 and "
+                "wrapped rate below the first threshold (C08_index_below_first), linear average 0 outside [t_0, t_last) (C08_linear_average_outside). "
                 "Carried by the correspondence only: IEEE rounding (eps-snap), BLAS summation order, numpy/bisect primitives; conventions outside "
                 "the claim domain (index below the first threshold, linear average at/after the last threshold) are compared, not binding."),
     exhaustive_note="thorough: every insertion sequence of 1..3 brackets over thresholds {-2,0,1,3} x rates {-1/16,1/4,1}, all ops, bases -3..4 step 1/4",
